@@ -96,3 +96,65 @@ Proof.
   - intros c _. exact (H1 pc eq_refl).
   - exfalso. exact (H2 eq_refl).
 Qed.
+
+(* ---------- the chunk walk reads back what to_bytes lays out ---------- *)
+(* how to_bytes lays the chunks out: id, size, data, one after the other *)
+Definition woz_chunk (c : N * list N) : list N := le32 (fst c) ++ le32 (lenN (snd c)) ++ snd c.
+Definition woz_body (cs : list (N * list N)) : list N := flat_map woz_chunk cs.
+
+Lemma un_le32_le32_app v rest : v < 4294967296 -> un_le32 (le32 v ++ rest) = v.
+Proof.
+  intros H. unfold un_le32, le32, dnth. cbn [app nth].
+  assert (A : v / 16777216 < 256) by (apply N.div_lt_upper_bound; lia).
+  rewrite (N.mod_small (v / 16777216) 256) by exact A. lia.
+Qed.
+Lemma dropN_app_exact {A} (a b : list A) n : lenN a = n -> dropN n (a ++ b) = b.
+Proof. intros <-. unfold dropN, lenN. rewrite Nat2N.id, skipn_app, Nat.sub_diag, skipn_all. reflexivity. Qed.
+Lemma lenN_app {A} (a b : list A) : lenN (a ++ b) = lenN a + lenN b.
+Proof. unfold lenN. rewrite app_length. lia. Qed.
+Lemma lenN_chunk c : lenN (woz_chunk c) = 8 + lenN (snd c).
+Proof. unfold woz_chunk. rewrite !lenN_app. unfold le32, lenN. cbn [length]. lia. Qed.
+
+Fixpoint expect (off : N) (cs : list (N * list N)) : list (N * N * N) :=
+  match cs with [] => [] | c :: r => (fst c, off, 8 + lenN (snd c)) :: expect (off + 8 + lenN (snd c)) r end.
+
+(* the chunk walk of from_bytes finds exactly the chunks to_bytes laid out, each at its offset with its length *)
+Theorem woz_walk_print : forall cs pre,
+  cs <> [] -> lenN pre <> 0 ->
+  Forall (fun c => known_id (fst c) = true /\ fst c < 4294967296 /\ lenN (snd c) < 4294967296) cs ->
+  forall fuel, (length cs < fuel)%nat ->
+  woz_walk fuel (lenN pre) (pre ++ woz_body cs) = ROk (expect (lenN pre) cs).
+Proof.
+  induction cs as [|c r IH]; intros pre Hne Hp HF fuel Hf; [contradiction|].
+  inversion HF as [|? ? (Hk & Hid & Hsz) Hr]; subst.
+  destruct fuel as [|n]; [cbn [length] in Hf; lia|].
+  cbn [woz_walk]. destruct (N.eqb_spec (lenN pre) 0) as [E|_]; [contradiction|].
+  cbn [woz_body flat_map]. set (rest := flat_map woz_chunk r).
+  unfold woz_next_chunk.
+  assert (L : lenN (pre ++ woz_chunk c ++ rest) = lenN pre + 8 + lenN (snd c) + lenN rest) by (rewrite !lenN_app, lenN_chunk; lia).
+  destruct (N.ltb_spec (lenN (pre ++ woz_chunk c ++ rest)) (lenN pre + 8)) as [X|_]; [lia|].
+  rewrite (dropN_app_exact pre _ (lenN pre) eq_refl).
+  assert (Eid : un_le32 (woz_chunk c ++ rest) = fst c).
+  { unfold woz_chunk. rewrite <- !app_assoc. apply un_le32_le32_app. exact Hid. }
+  rewrite Eid.
+  assert (Esz : un_le32 (dropN (lenN pre + 4) (pre ++ woz_chunk c ++ rest)) = lenN (snd c)).
+  { unfold woz_chunk. rewrite <- !app_assoc. rewrite (app_assoc pre (le32 (fst c))).
+    rewrite (dropN_app_exact (pre ++ le32 (fst c)) _ (lenN pre + 4)) by (rewrite lenN_app; unfold le32, lenN; cbn [length]; lia).
+    apply un_le32_le32_app. exact Hsz. }
+  rewrite Esz.
+  destruct (N.ltb_spec (lenN (pre ++ woz_chunk c ++ rest)) (lenN pre + 8 + lenN (snd c))) as [X|_]; [lia|].
+  rewrite Hk.
+  replace (lenN pre + 8 + lenN (snd c) - lenN pre) with (8 + lenN (snd c)) by lia.
+  destruct r as [|c2 r2].
+  - (* last chunk: nothing follows, the walk stops *)
+    assert (Rz : lenN rest = 0) by reflexivity.
+    destruct (N.ltb_spec (lenN (pre ++ woz_chunk c ++ rest)) (lenN pre + 8 + lenN (snd c) + 8)) as [_|X]; [|lia].
+    destruct n; cbn [woz_walk]; change (0 =? 0) with true; cbn [obind expect]; reflexivity.
+  - inversion Hr as [|? ? (Hk2 & Hid2 & Hsz2) Hr2]; subst.
+    assert (R8 : 8 <= lenN rest) by (unfold rest; cbn [flat_map]; rewrite lenN_app, lenN_chunk; lia).
+    destruct (N.ltb_spec (lenN (pre ++ woz_chunk c ++ rest)) (lenN pre + 8 + lenN (snd c) + 8)) as [X|_]; [lia|].
+    specialize (IH (pre ++ woz_chunk c) ltac:(discriminate) ltac:(rewrite lenN_app; lia) Hr n ltac:(cbn [length] in *; lia)).
+    rewrite lenN_app, lenN_chunk in IH. rewrite <- app_assoc in IH.
+    replace (lenN pre + (8 + lenN (snd c))) with (lenN pre + 8 + lenN (snd c)) in IH by lia.
+    unfold rest. unfold woz_body in IH. rewrite IH. cbn [obind expect]. reflexivity.
+Qed.
